@@ -90,4 +90,15 @@ def stages(tier, rng, only=None):
     out.append(ac.stage("larger_fine", PID, lambda: ac.cases(
         [ac.larger_dataset(rng, 10, 25) for _ in range(n_rand // 6)],
         ["BioConsert", "BioCo", "Bio[Copeland,KwikSort]"], FINE), _nt))
+    # 30 elements, picked (tools/find_slow_local.py) because the local search needs 12 to 18 passes over the elements
+    def slow():
+        import json
+        import os
+        corpus = json.load(open(os.path.join(os.path.dirname(os.path.dirname(__file__)), "corpus", "slow_local.json")))
+        rng.shuffle(corpus)
+        cs = []
+        for ent in corpus[:(8 if tier == "quick" else 60)]:
+            cs += ac.cases([ent["D"]], [ent["cfg"]], [[ac.P_UNI5, ac.P_PSE5][ent["sch"]]], flags=(0,))
+        return cs
+    out.append(ac.stage("many_passes", PID, slow, _nt))
     return [s for s in out if not only or s.name == only]
